@@ -3,7 +3,7 @@ import VerylModel.Driver.Util
 /-! `vmodel crash`: the model's filesystem-step word for one run, given the decisions observed
 from the outside (disk before/after).
 Request (decimal ids; file id = index of the source in path order; a diagnostics blob of file f is 1000+f):
-`steps <mode i|a> <blobs [f,..]> <outs [s<f>|m<f>,..]> <filelist 0|1> <diagblobs [n,..]> <manifest 0|1> <gc [n,..]> <info 0|1>`
+`steps <mode i|a> <pass1 [f|p<n>,..] (f: fragment blob of file f written; p<n>: damaged blob n removed by read_blob)> <outs [s<f>|m<f>,..]> <filelist 0|1> <diagblobs [n,..]> <manifest 0|1> <gc [n,..]> <info 0|1>`
 Reply: the abstract event word of `Plan.blocks`, `,`-separated (see `blockWord`). -/
 namespace VerylModel.Driver.Crash
 open VerylModel.Crash VerylModel.Driver
@@ -26,6 +26,16 @@ def parseOuts (s : String) : Option (List Path) :=
     | some p, some l => some (p :: l)
     | _, _ => none) (some [])
 
+def parseP1 (t : String) : Option P1 :=
+  match t.toList with
+  | 'p' :: rest => (String.ofList rest).toNat?.map P1.purge
+  | _ => t.toNat?.map (fun n => P1.blob n [])
+
+def parseP1s (s : String) : Option (List P1) :=
+  (parseList s).foldr (fun t acc => match parseP1 t, acc with
+    | some p, some l => some (p :: l)
+    | _, _ => none) (some [])
+
 def flag? (s : String) : Option Bool :=
   if s == "1" then some true else if s == "0" then some false else none
 
@@ -33,10 +43,10 @@ def step (_ : Unit) (t : List String) : Unit × String :=
   match t with
   | ["steps", mode, blobs, outs, fl, dblobs, man, gc, info] =>
     let m : Option OutMode := if mode == "i" then some .inPlace else if mode == "a" then some .atomic else none
-    match m, parseNats blobs, parseOuts outs, flag? fl, parseNats dblobs, flag? man, parseNats gc, flag? info with
+    match m, parseP1s blobs, parseOuts outs, flag? fl, parseNats dblobs, flag? man, parseNats gc, flag? info with
     | some mode, some bs, some os, some fl, some ds, some mn, some g, some inf =>
       let pl : Plan :=
-        { blobs := bs.map (fun n => (n, [])), outs := os.map (fun p => (p, [])),
+        { pass1 := bs, outs := os.map (fun p => (p, [])),
           filelist := if fl then some [] else none, diagBlobs := ds.map (fun n => (n, [])),
           manifest := if mn then some (emptyMan 0) else none, gc := g,
           info := if inf then some [] else none }
